@@ -35,7 +35,8 @@ check("C16", "fault_enumeration",
       "declarations present and unchanged. A second model with two dynamic templates: labels quantifying over dynamic "
       "instances (forall/exists/sum, nested, one binder name over different templates, also in the later labels) under the "
       "same single-token faults. "
-      "With a template-local fault the global declarations must be unchanged and no diagnostic may land outside the faulted block.",
+      "With a template-local fault the global declarations must be unchanged and no diagnostic may land outside the faulted block. "
+      "The templates after a faulted template-local block must be unchanged.",
       "Reference = the fault-free document parsed the same way (static analysis iff the faulted parse ran it). The faulted "
       "label's value and document-wide summary flags are masked.",
       "exhaustive fault enumeration (token positions x fault operators, all short token strings) with a differential oracle against the fault-free run",
@@ -55,7 +56,8 @@ check("C17", "exploration",
       "bound to ordinary and hybrid clocks - each instantiated "
       "(explicitly and directly), uninstantiated, and in two declaration orders. Oracle: a method is reported supported only "
       "if the generator's feature flag permits it; unused templates and declaration order do not change the verdict. "
-      "Restricting invariants on urgent and committed locations.",
+      "Restricting invariants on urgent and committed locations. "
+      "Every cell also with the carrying template as a process set (free parameter) and as a process set of a partial instance.",
       "Only the statement's 'only if' direction and invariance clauses are demanded; variable-valued rates are not claimed "
       "(the suite's rate_expression.xml fixes that they keep symbolic analysis). Only accepted models count. Known finding: a non-hybrid "
       "clock bound to a hybrid clock reference (known_findings.txt).",
@@ -113,7 +115,8 @@ check("C03", "exploration",
       "outside ASCII, backslashes and escaped quotes) as arguments in five expression shapes, and 59 query forms x boolean/numeric operand pools are printed with the "
       "library's str(), re-parsed by the same parser in the same scope and compared: no throw, no diagnostics, identical "
       "tree (kinds, order, symbols, constants bit-exact), identical query kind, identical second str(). "
-      "Binders over 7 named and anonymous types x 7 bodies as expressions and queries.",
+      "Binders over 7 named and anonymous types x 7 bodies as expressions and queries. "
+      "All ordered pairs of bound kinds in comparisons of two probabilities; clock expressions as run bounds; saveStrategy with a string constant.",
       "The text of a control-synthesis query is taken to be the prefix recorded in PropInfo::type plus str(intermediate), as "
       "TigaPropertyBuilder strips the wrapper on purpose. Trusts the harness s-expression as tree identity. Small scope: the "
       "tree shapes and operand pools listed in the evidence.",
@@ -141,7 +144,8 @@ check("C05", "exploration",
       "abstract model as verbatim text in both renderings (scalar sets, records, functions with every statement kind, channel "
       "priorities, before/after update, template-local types, system-section declarations, progress measures, gantt charts), "
       "alone and in all ordered pairs, which must also be present in the documents. "
-      "Name clashes (templates named like templates, variables, types, constants; globals declared twice) are among the injected faults.",
+      "Name clashes (templates named like templates, variables, types, constants; globals declared twice) are among the injected faults. "
+      "The same XML text through the buffer, file and file-descriptor entry points must give the same result.",
       "Trusts the two renderers in lib/modelgen.py to express the same model; edge_t::actname ignored.",
       "choice-tree DFS with deviation bound, differential oracle between the two front ends of the real code",
       "DESIGN.md §3/C05")
@@ -195,7 +199,8 @@ check("C10", "exploration",
       "(ordinary, urgent, committed location, second template), and with the label written as a CDATA section, is type "
       "checked by the real library and compared with a reference convexity classifier transcribed from the statement; "
       "a plain conjunction of atoms that are accepted alone must be accepted. Exhaustive within the stated alphabet/depth. "
-      "Placements include unused templates and spawned dynamic templates.",
+      "Placements include unused templates and spawned dynamic templates. "
+      "Guards read through parse_XML_fd, invariants through parse_XML_file.",
       "Trusts the reference classifier R4 in checks/c10.py and the small-scope hypothesis (depth <= 3, 3 (quick) / 6 (thorough) "
       "atom kinds).",
       "bounded-exhaustive enumeration of all formula trees on the real code against a reference classifier",
@@ -233,7 +238,8 @@ check("C12", "exploration",
       "const / reference parameters and spawn arguments; 14 shapes of a constant reaching a written reference parameter through the "
       "own parameters of one and two partial instances; constants whose initialiser or size contains a quantifier. "
       "Record types written out in place (`const struct { .. } s`) are among the type shapes. "
-      "Writes as arguments of built-in functions: every function x argument position x 4 write forms.",
+      "Writes as arguments of built-in functions: every function x argument position x 4 write forms. "
+      "Constants bound to written reference parameters of LSC charts.",
       "Quantifier binders have no accepted twin. Small scope: listed shapes/forms.",
       "bounded-exhaustive matrix enumeration on the real type checker with a twin (differential) oracle",
       "DESIGN.md §3/C12")
@@ -270,7 +276,7 @@ check("C14", "exploration",
 check("C15", "model_checking",
       "Explicit-state search over call histories executed on the real library. State = the process-global lexer/parser/tracker "
       "state (parser statics read through a wrapper TU, flex start condition and buffer stack, UTAP::tracker, errno); "
-      "transition = one more call of a public entry point, executed in a process forked from that state. 37 events (XML by "
+      "transition = one more call of a public entry point, executed in a process forked from that state. 40 events (XML by "
       "buffer/fd, XTA by buffer/FILE*, queries by buffer/FILE*, bare blocks; accepted, diagnosed, throwing XMLReaderError / "
       "XMLDocError / runtime_error / TypeException from inside the grammar, unterminated comments, 3.x syntax, a client builder "
       "aborting inside a comment / an array declarator / a label, literals that leave errno set, models accepted with every kind of warning). All histories of length <= 2 (quick) / 3 (thorough) from "
@@ -331,7 +337,8 @@ check("C20", "exploration",
       "presence; label texts are judged by parsing the written file again and comparing the expression trees. Branchpoints "
       "(also in a template that is not the first): one element each with a unique id, and the references of edges through "
       "them resolve to the right branchpoint. Every label kind x 20 string literals (characters of 2-4 bytes, XML-special text, escaped "
-      "quotes): a model rebuilt from the written elements and label texts alone must give the same expressions.",
+      "quotes): a model rebuilt from the written elements and label texts alone must give the same expressions. "
+      "Dynamic templates are counted among the templates the file must hold (known finding: they are not written).",
       "ElementTree as independent reader; label text equivalence via re-parse by the library (expression trees).",
       "choice-tree DFS with deviation bound on the real parser+writer, independent-reader oracle",
       "DESIGN.md §3/C20")
